@@ -121,7 +121,12 @@ class IncludeNode(ConfigNode):
         if missing:
             raise FileNotFoundError({ 'missing': missing, 'lookup_dirs': list(subbuilder.get_lookup_dirs(self._source_file)), 'source': self._source_file })
 
-        return subbuilder.build().ayns.on_preprocess(path, builder)
+        ret = subbuilder.build().ayns.on_preprocess(path, builder)
+        if self._priority is not None:
+            # a priority tag on a container applies to everything below it - also to what is included there
+            ret._priority = self._priority
+            ret._propagate_priority()
+        return ret
 
 
     @namespace('ayns')
